@@ -68,38 +68,69 @@ pub fn snapshot(root: &Path) -> String {
 pub fn main_loop(
     prop: &str,
     generate: &dyn Fn(&str, u64, &mut dyn FnMut(Case)),
-    run_case: &dyn Fn(&[String]) -> String,
+    run_case: &(dyn Fn(&[String]) -> String + Sync),
+) {
+    main_loop_jobs(prop, 1, generate, run_case);
+}
+
+fn guarded(run_case: &(dyn Fn(&[String]) -> String + Sync), fields: &[String]) -> String {
+    match std::panic::catch_unwind(std::panic::AssertUnwindSafe(|| run_case(fields))) {
+        Ok(o) => o.replace(['\t', '\n'], " "),
+        Err(_) => "PANIC".to_string(),
+    }
+}
+
+/// Like `main_loop`, but the cases are executed on `jobs` threads (order of the output is the generation order).
+/// Use jobs > 1 only when `run_case` is thread-safe (own temp dir per case, no process-global state).
+pub fn main_loop_jobs(
+    prop: &str,
+    jobs: usize,
+    generate: &dyn Fn(&str, u64, &mut dyn FnMut(Case)),
+    run_case: &(dyn Fn(&[String]) -> String + Sync),
 ) {
     let args: Vec<String> = std::env::args().collect();
     let mode = args.get(1).map(String::as_str).unwrap_or("gen");
-    let stdout = std::io::stdout();
-    let mut out = std::io::BufWriter::new(stdout.lock());
+    let jobs = std::env::var("VERIF_JOBS").ok().and_then(|s| s.parse().ok()).unwrap_or(jobs).max(1);
+    let mut cases: Vec<Case> = vec![];
     match mode {
         "gen" => {
             let tier = args.iter().position(|a| a == "--tier").and_then(|i| args.get(i + 1)).map(String::as_str).unwrap_or("quick").to_string();
-            let mut emit = |c: Case| {
-                let obs = match std::panic::catch_unwind(std::panic::AssertUnwindSafe(|| run_case(&c.fields))) {
-                    Ok(o) => o,
-                    Err(_) => "PANIC".to_string(),
-                };
-                let tags: Vec<String> = c.tags.iter().map(|(k, v)| format!("{k}={v}")).collect();
-                writeln!(out, "CASE\t{}\t{}\t{}\t#nt={};{}", prop, c.fields.join("\t"), obs, u8::from(c.nontrivial), tags.join(";")).unwrap();
-            };
-            generate(&tier, seed(), &mut emit);
+            generate(&tier, seed(), &mut |c: Case| cases.push(c));
         }
         "run" => {
             let stdin = std::io::stdin();
             for line in stdin.lock().lines() {
                 let line = line.unwrap();
-                let fields: Vec<String> = line.split('\t').map(str::to_string).collect();
-                let obs = match std::panic::catch_unwind(std::panic::AssertUnwindSafe(|| run_case(&fields))) {
-                    Ok(o) => o,
-                    Err(_) => "PANIC".to_string(),
-                };
-                writeln!(out, "CASE\t{}\t{}\t{}\t#nt=0;", prop, fields.join("\t"), obs).unwrap();
+                cases.push(Case { fields: line.split('\t').map(str::to_string).collect(), tags: vec![], nontrivial: false });
             }
         }
         _ => { eprintln!("usage: {prop} gen --tier quick|thorough | run < fields"); std::process::exit(2); }
+    }
+    // silence panic messages of the code under test (they are mapped to the observation PANIC)
+    std::panic::set_hook(Box::new(|_| {}));
+    let n = cases.len();
+    let mut obs: Vec<String> = vec![String::new(); n];
+    if jobs == 1 {
+        for (i, c) in cases.iter().enumerate() { obs[i] = guarded(run_case, &c.fields); }
+    } else {
+        let next = std::sync::atomic::AtomicUsize::new(0);
+        let results = std::sync::Mutex::new(&mut obs);
+        std::thread::scope(|s| {
+            for _ in 0..jobs {
+                s.spawn(|| loop {
+                    let i = next.fetch_add(1, std::sync::atomic::Ordering::SeqCst);
+                    if i >= n { break; }
+                    let o = guarded(run_case, &cases[i].fields);
+                    results.lock().unwrap()[i] = o;
+                });
+            }
+        });
+    }
+    let stdout = std::io::stdout();
+    let mut out = std::io::BufWriter::new(stdout.lock());
+    for (c, o) in cases.iter().zip(obs.iter()) {
+        let tags: Vec<String> = c.tags.iter().map(|(k, v)| format!("{k}={v}")).collect();
+        writeln!(out, "CASE\t{}\t{}\t{}\t#nt={};{}", prop, c.fields.join("\t"), o, u8::from(c.nontrivial), tags.join(";")).unwrap();
     }
     out.flush().unwrap();
 }
